@@ -609,7 +609,7 @@ func init() {
 		ID: "C19",
 		Rule: "cases = generated function signatures (reflect.FuncOf/MakeFunc over an 11-type pool, arity 0-4, variadic or not, 0-3 results) x argument lists (well-typed, " +
 			"one value replaced, one dropped, one extra, untyped nil) x result options (none / CallResults / CallResultsSlice with valid and invalid targets; in a sixth of the cases every option is preceded by an earlier, valid option of its kind that it replaces); plus complete enumeration of a reduced pool " +
-			"(arity<=2 over the value pool), a huge-variadic family, and homonymous-types: pairs of signatures that differ only in two distinct types which print identically (function-local types with one name), called one after the other in one process with well-typed and cross-typed arguments and targets; each case is compared with an independent well-typedness reference. non-trivial = the case mixes at least one argument with a result option or is ill-typed; " +
+			"(arity<=2 over the value pool), a huge-variadic family, common-shapes: the signatures everybody writes (func() (interface{}, error), func() error, ...) x every nil / non-nil result combination x every result option (complete); and homonymous-types: pairs of signatures that differ only in two distinct types which print identically (function-local types with one name), called one after the other in one process with well-typed and cross-typed arguments and targets; each case is compared with an independent well-typedness reference. non-trivial = the case mixes at least one argument with a result option or is ill-typed; " +
 			"distinct = distinct (signature, args, targets) descriptions",
 		Assumptions: []string{
 			"CallArgs is always supplied unless the function takes no parameters (the statement speaks of Call with CallArgs and CallResults/CallResultsSlice)",
@@ -623,6 +623,7 @@ func init() {
 			{Name: "huge-variadic", N: core.TierN(1, 1), Solo: true, Run: c19Huge},
 			{Name: "shared-options", N: core.TierN(8, 80), Batch: 2, Run: c19SharedOptions},
 			{Name: "homonymous-types", N: core.TierN(20, 400), Batch: 5, Run: c19Homonymous},
+			{Name: "common-shapes", N: core.TierN(1, 1), Solo: true, Run: c19CommonShapes},
 		},
 	})
 }
@@ -955,4 +956,83 @@ func c19Homonymous(c *core.Ctx) {
 		c.Nontrivial()
 	}
 	c.Sig("homonymous", c.Seed, pairs)
+}
+
+// c19CommonShapes: the signatures everybody writes (the package's own work-function shape func() (interface{}, error),
+// func() error, func() interface{}, func(interface{}) error, ...) with every combination of nil / non-nil results,
+// under every result option, with and without a replaced earlier option. (A special case for a popular signature is a
+// natural optimisation; it has to behave like the general path.)
+func c19CommonShapes(c *core.Ctx) {
+	shapes := []struct{ in, out []reflect.Type }{
+		{nil, []reflect.Type{tAny, tError}},
+		{nil, []reflect.Type{tError}},
+		{nil, []reflect.Type{tAny}},
+		{nil, nil},
+		{[]reflect.Type{tAny}, []reflect.Type{tError}},
+		{[]reflect.Type{tAny}, []reflect.Type{tAny, tError}},
+		{[]reflect.Type{tInt}, []reflect.Type{tInt, tError}},
+		{[]reflect.Type{tString}, []reflect.Type{tString}},
+	}
+	retsFor := func(t reflect.Type) []any {
+		switch t {
+		case tAny:
+			return []any{nil, 7, "hello", &c19IntA}
+		case tError:
+			return []any{nil, c19Err}
+		case tInt:
+			return []any{0, 7}
+		default:
+			return []any{"", "hello"}
+		}
+	}
+	cases := 0
+	var rec func(k *c19Case, i int)
+	rec = func(k *c19Case, i int) {
+		if i < len(k.out) {
+			for _, v := range retsFor(k.out[i]) {
+				kk := *k
+				kk.rets = append(append([]any(nil), k.rets...), v)
+				rec(&kk, i+1)
+			}
+			return
+		}
+		for mode := 0; mode < 3; mode++ {
+			for _, dup := range []bool{false, true} {
+				for _, swap := range []bool{false, true} {
+					kk := *k
+					kk.mode, kk.dupOpts, kk.swapOpts = mode, dup, swap
+					kk.targets, kk.sliceTgt = nil, nil
+					switch mode {
+					case 1:
+						for _, t := range kk.out {
+							p := reflect.New(t)
+							if vs := valuesFor(t); len(vs) > 1 {
+								p.Elem().Set(asType(t, vs[1])) // a pre-filled (stale) target
+							}
+							kk.targets = append(kk.targets, p.Interface())
+						}
+					case 2:
+						sl := []any{"pre"}
+						kk.sliceTgt = &sl
+					}
+					cases++
+					if o := kk.run(); o != nil {
+						c19Report(c, &kk, o)
+					}
+				}
+			}
+		}
+	}
+	for _, sh := range shapes {
+		k := &c19Case{in: sh.in, out: sh.out}
+		for _, t := range sh.in {
+			vs := valuesFor(t)
+			k.args = append(k.args, vs[len(vs)-1])
+		}
+		rec(k, 0)
+	}
+	c.Op("call", cases)
+	c.ExhaustiveFamily("8 common signatures x every nil/non-nil result combination x result option x {plain, replaced earlier option} x option order", cases)
+	c.Nontrivial()
+	c.Sig("common-shapes", cases)
 }
